@@ -23,54 +23,62 @@ def sd (z : Int) (e : Int) : SD := ⟨decide (z < 0), Dy.norm z.natAbs e⟩
     multiplied by `⌊1.5⌋ = 1`, the result is recorded at scale 24. -/
 theorem add_nonint_ratio_witness :
     addElt toyP false ⟨2, 1, dy 24 0, 4⟩ ⟨2, 1, dy 16 0, 4⟩ ⟨2, 1, dy 16 0, 4⟩
-      = .ok ⟨⟨2, 1, dy 24 0, 4⟩, [1, 1]⟩ := by decide +kernel
+      = .ok ⟨⟨2, 1, dy 24 0, 4⟩, [1, 1, 0, 1, 1, 0]⟩ := by decide +kernel
 
 /-- integer ratio: exact alignment (`16·3 = 48`). -/
 theorem add_int_ratio_witness :
     addElt toyP false ⟨2, 1, dy 48 0, 4⟩ ⟨2, 1, dy 16 0, 4⟩ ⟨2, 1, dy 16 0, 4⟩
-      = .ok ⟨⟨2, 1, dy 48 0, 4⟩, [1, 3]⟩ := by decide +kernel
+      = .ok ⟨⟨2, 1, dy 48 0, 4⟩, [1, 3, 0, 1, 3, 0]⟩ := by decide +kernel
+
+/-- operands of different degree: `Add(ct of degree 2 @16, ct of degree 1 @48, fresh receiver)`: the
+    component `c_2`, present in `op0` only, is the *scale-matched* one (`3·op0.c_2`, not `op0.c_2`). -/
+theorem add_higher_degree_scaled_witness :
+    addElt toyP false ⟨2, 2, dy 16 0, 4⟩ ⟨2, 1, dy 48 0, 4⟩ ⟨2, 2, dy 16 0, 4⟩
+      = .ok ⟨⟨2, 2, dy 48 0, 4⟩, [3, 1, 0, 3, 1, 0, 3, 0, 0]⟩ ∧
+    addElt toyP true ⟨2, 0, dy 48 0, 4⟩ ⟨2, 1, dy 16 0, 4⟩ ⟨2, 1, dy 16 0, 4⟩
+      = .ok ⟨⟨2, 1, dy 48 0, 4⟩, [1, -3, 0, 0, -3, 0]⟩ := by decide +kernel
 
 /-- fix C06-1 (was `C06/addsc-receiver-scale-not-set`): `AddNew(ct, 1)` with `ct.Scale = 64` and a
     receiver allocated at the default scale 16: the constant is added at scale 64 and the output is
     recorded at scale 64. -/
 theorem addScalar_fresh_receiver_witness :
     addScalar toyP false ⟨2, 1, dy 64 0, 4⟩ ⟨2, 1, dy 16 0, 4⟩ (sd 1 0) (sd 0 0)
-      = .ok ⟨⟨2, 1, dy 64 0, 4⟩, [64, 0]⟩ := by decide +kernel
+      = .ok ⟨⟨2, 1, dy 64 0, 4⟩, [64, 0, 1, 1]⟩ := by decide +kernel
 
 /-- `C06/setscale-noninteger-ratio-ge2`: `SetScale(ct@16, 40)` (ratio 2.5): the content is multiplied
     by `round(2.5·1019) = 2548`, **no** prime is divided out (`16 < 40/2`), the scale is recorded as
     `40`: the content is `1019` times too large. -/
 theorem setScale_ratio_ge2_witness :
-    setScale toyP ⟨2, 1, dy 16 0, 4⟩ (dy 40 0) = .ok ⟨⟨2, 1, dy 40 0, 4⟩, [2548]⟩ := by decide +kernel
+    setScale toyP ⟨2, 1, dy 16 0, 4⟩ (dy 40 0) = .ok ⟨⟨2, 1, dy 40 0, 4⟩, [2548, 2548]⟩ := by decide +kernel
 
 /-- ratio in `(2/q, 2)`: one prime consumed, content multiplied by `round(1.25·1019)/1019 ≈ 1.25`. -/
 theorem setScale_ok_witness :
-    setScale toyP ⟨2, 1, dy 16 0, 4⟩ (dy 20 0) = .ok ⟨⟨1, 1, dy 20 0, 4⟩, [1]⟩ := by decide +kernel
+    setScale toyP ⟨2, 1, dy 16 0, 4⟩ (dy 20 0) = .ok ⟨⟨1, 1, dy 20 0, 4⟩, [1, 1]⟩ := by decide +kernel
 
 /-- `C06/setscale-ratio-below-2-over-q`: `SetScale(ct@2^14, 16)`: the constant is scaled by one prime
     (`round(2^-10·1019) = 1`), but `RescaleTo` works on the recorded scale `2^14·1019` and divides by
     two primes (`2^14/1013 ≥ 8`): the ciphertext lands at level 0 and its content is `≈ 1013` times
     too small. -/
 theorem setScale_ratio_small_witness :
-    setScale toyP ⟨2, 1, dy 1 14, 4⟩ (dy 16 0) = .ok ⟨⟨0, 1, dy 16 0, 4⟩, [0]⟩ := by decide +kernel
+    setScale toyP ⟨2, 1, dy 1 14, 4⟩ (dy 16 0) = .ok ⟨⟨0, 1, dy 16 0, 4⟩, [0, 0]⟩ := by decide +kernel
 
 /-- `C06/mta-scaleup-noninteger-ratio`: `MulRelinThenAdd` with `opOut.Scale = 10`, product scale
     `16·4 = 64` (ratio 6.4): the receiver is multiplied by `round(6.4·1019) = 6522` and recorded at
     scale 64: its previous content is `1019` times too large. -/
 theorem mulThenAdd_nonint_ratio_witness :
     mulThenAddElt toyP true .fresh ⟨2, 1, dy 16 0, 4⟩ ⟨2, 1, dy 4 0, 4⟩ ⟨2, 1, dy 10 0, 4⟩
-      = .ok ⟨⟨2, 1, dy 64 0, 4⟩, [6522]⟩ := by decide +kernel
+      = .ok ⟨⟨2, 1, dy 64 0, 4⟩, [6522, 6522]⟩ := by decide +kernel
 
 /-- integer ratio (`64/16 = 4`): exact. -/
 theorem mulThenAdd_int_ratio_witness :
     mulThenAddElt toyP true .fresh ⟨2, 1, dy 16 0, 4⟩ ⟨2, 1, dy 4 0, 4⟩ ⟨2, 1, dy 16 0, 4⟩
-      = .ok ⟨⟨2, 1, dy 64 0, 4⟩, [4]⟩ := by decide +kernel
+      = .ok ⟨⟨2, 1, dy 64 0, 4⟩, [4, 4]⟩ := by decide +kernel
 
 /-- fix C06-2 (was `C06/mtasc-receiver-level-kept`, `C06/mta-receiver-degree-cut`):
     `MulThenAdd(ct@level 1, 3, out@level 2 of degree 2)` is evaluated at level 1 and keeps degree 2. -/
 theorem mulThenAddScalar_level_degree_witness :
     mulThenAddScalar toyP .fresh ⟨1, 1, dy 16 0, 4⟩ ⟨2, 2, dy 16 0, 4⟩ (sd 3 0) (sd 0 0)
-      = .ok ⟨⟨1, 2, dy 16 0, 4⟩, [1, 3, 0]⟩ := by decide +kernel
+      = .ok ⟨⟨1, 2, dy 16 0, 4⟩, [1, 3, 0, 1, 3, 0, 1, 0, 0]⟩ := by decide +kernel
 
 /-- fix C06-3 (was `C06/mtasc-receiver-is-operand`): the receiver must differ from `op0`. -/
 theorem mulThenAddScalar_alias_witness :
@@ -80,7 +88,7 @@ theorem mulThenAddScalar_alias_witness :
 /-- `C06/scaleup-truncates-scale`: `ScaleUp(ct, 2.5)`: content times 2, recorded scale times 2.5. -/
 theorem scaleUp_truncation_witness :
     scaleUp toyP ⟨2, 1, dy 16 0, 4⟩ ⟨2, 1, dy 16 0, 4⟩ (dy 5 (-1))
-      = .ok ⟨⟨2, 1, dy 40 0, 4⟩, [2]⟩ := by decide +kernel
+      = .ok ⟨⟨2, 1, dy 40 0, 4⟩, [2, 2]⟩ := by decide +kernel
 
 /-- fix C06-5 (was `C06/panic:prec128-level0-constant-scaling`): with two primes per rescale a
     non-integer constant at level 0 is an error. -/
@@ -96,9 +104,9 @@ theorem rescaleTo_stops_at_level0_witness :
 
 /-- a Gaussian-integer constant is not scaled; a non-integer one is scaled by the current prime. -/
 theorem mulScalar_witness :
-    mulScalar toyP ⟨2, 1, dy 16 0, 4⟩ ⟨2, 1, dy 16 0, 4⟩ (sd 3 0) (sd (-2) 0) = .ok ⟨⟨2, 1, dy 16 0, 4⟩, [3, -2]⟩
+    mulScalar toyP ⟨2, 1, dy 16 0, 4⟩ ⟨2, 1, dy 16 0, 4⟩ (sd 3 0) (sd (-2) 0) = .ok ⟨⟨2, 1, dy 16 0, 4⟩, [3, -2, 3, -2]⟩
     ∧ mulScalar toyP ⟨2, 1, dy 16 0, 4⟩ ⟨2, 1, dy 16 0, 4⟩ (sd 1 (-1)) (sd (-1) (-2))
-        = .ok ⟨⟨2, 1, dy (16 * 1019) 0, 4⟩, [510, -255]⟩ := by decide +kernel
+        = .ok ⟨⟨2, 1, dy (16 * 1019) 0, 4⟩, [510, -255, 510, -255]⟩ := by decide +kernel
 
 /-- rescale: one prime (`16·1019 / 1019 = 16` exactly) resp. two primes. -/
 theorem rescale_witness :
